@@ -403,7 +403,14 @@ func runForgetRace(sec *vh.Section, nb int) {
 // record, so the last index point says "timestamp C.max at position B.last" and drops C's own point; lastRec and Recs go DOWN.
 // While count > Recs the window stays open (a7caf30); after the next write Recs is exact again and GetPosForLessTime cuts the
 // window at B's last record for every upper bound below C's maximum: C's in-range records are hidden (monotone data).
+// writersSerialised: set by the first reorder program that finds that a second writer of the partition cannot overtake a parked one
+var writersSerialised bool
+
 func runReorderRace(sec *vh.Section, n int, rebuildBetween bool) {
+	if writersSerialised {
+		res.Dist(sec, "reorder schedule unreachable: writers of a partition are serialised")
+		return
+	}
 	dir := lrsrv.NewDir()
 	defer os.RemoveAll(dir)
 	srv, err := lrsrv.Start(dir, lrsrv.Opts{MaxChunkSize: 250000, NoRPC: true})
@@ -455,10 +462,25 @@ func runReorderRace(sec *vh.Section, n int, rebuildBetween bool) {
 		return
 	}
 	r.ask("rw.writenoindex "+modelSpec(bts), func(string) {})
-	// the second writer: batch C, written and notified while B's notification is parked
-	if !r.doWrite(op{Kind: "write", Segs: []seg{{T: 2000, N: n, D: 1}}}, rng) {
+	// the second writer: batch C, written and notified while B's notification is parked. Since 3e8b3c3 Service.Write holds a
+	// per-partition lock from Journal.Write to the index notification: a second writer cannot overtake, the schedule is not
+	// reachable through Service.Write any more (the index-level statement stays: reordered_notifications_sound and the
+	// obligations on the regenerated facts). The program detects that and ends.
+	cDone := make(chan bool, 1)
+	go func() { cDone <- r.doWrite(op{Kind: "write", Segs: []seg{{T: 2000, N: n, D: 1}}}, rng) }()
+	select {
+	case ok := <-cDone:
+		if !ok {
+			close(gate)
+			<-doneW
+			return
+		}
+	case <-time.After(3 * time.Second):
+		writersSerialised = true
+		res.Dist(sec, "reorder schedule unreachable: writers of a partition are serialised")
 		close(gate)
 		<-doneW
+		<-cDone
 		return
 	}
 	if rebuildBetween {
